@@ -167,6 +167,8 @@ func firstUse(cx *lib.Ctx) {
 	}
 	firstUseBody(cx)
 	sharedSchema(cx)
+	nilContext(cx)
+	deepDynamic(cx)
 }
 
 // firstUseBody: the first content extraction on a freshly parsed body, by all goroutines at once, with schemas
